@@ -294,6 +294,45 @@ def run_scoping(spec, acc):
                "scoping")
 
 
+def run_length_scoping(spec, acc):
+    """nesting by the scope of branch lengths (the molecular-clock style test): the nested model ties the lengths of the
+    edges in each block of an edge partition (is_independent=False), the richer model frees every edge"""
+    model, tree = spec["model"], spec["tree"]
+    edges = ["a", "b", "c"] if tree == 3 else ["a", "b", "c", "d", "e"]
+    aln = NUC_ALNS[0]
+    for pn in partitions(edges):
+        if all(len(blk) == 1 for blk in pn):
+            continue
+        case = {"part": "length_scoping", "model": model, "tree": tree, "blocks": [list(b) for b in pn]}
+        acc.case(case)
+        try:
+            null = make_lf(model, tree, aln)
+            for p, v in zip(get_sm(model).get_param_list(), CYCLE):
+                null.set_param_rule(p, init=v)
+            for i, blk in enumerate(pn):
+                null.set_param_rule("length", edges=list(blk), is_independent=False, init=0.1 + 0.15 * i)
+            lnl0 = float(null.lnL)
+            alt = make_lf(model, tree, aln)
+        except Exception as e:  # noqa: BLE001
+            acc.count("null_not_constructible")
+            acc.outcome(("length scoping: not built", type(e).__name__))
+            continue
+        if not alt.nfp > null.nfp:
+            acc.count("precondition_more_free_parameters_not_met")
+            continue
+        try:
+            alt.initialise_from_nested(null)
+            lnl1 = float(alt.lnL)
+        except Exception as e:  # noqa: BLE001
+            acc.fail(f"initialise_from_nested {model} (tied branch lengths -> free): raised {type(e).__name__} [branch-length scope]", case, {"error": str(e)[:300]})
+            continue
+        acc.outcome(("length scoping", round(lnl0, 6)))
+        if not abs(lnl1 - lnl0) <= TOL:
+            acc.fail(f"initialise_from_nested {model} (tied branch lengths -> free): lnL differs from the nested model's [branch-length scope]", case,
+                     {"null_lnL": lnl0, "alt_lnL": lnl1, "diff": lnl1 - lnl0})
+    acc.sample({"model": model, "tree_edges": tree, "nested": "lengths tied within the blocks of every edge partition", "richer": "all edges free"}, "length_scoping")
+
+
 def run_scoped_null(spec, acc):
     """model nesting where the null's distinguishing parameter is scoped by every edge partition, alt unscoped"""
     null, alt, alt_kw, _why = spec["pair"]
@@ -580,6 +619,9 @@ def shards(tier, seed):
         if get_param_count(pair[0]) and pair[1] != "GS":
             for tree in (3, 5):
                 out.append({"part": "scoped_null", "pair": list(pair), "tree": tree})
+    for model in ("HKY85", "GTR"):
+        for tree in (3, 5):
+            out.append({"part": "length_scoping", "model": model, "tree": tree})
     k = b["b_cells_1d"]
     n_land = len(b["b_values"]) ** k
     of = max(1, n_land // 12)
@@ -611,7 +653,7 @@ def get_param_count(model):
 
 
 def run_shard(spec, acc):
-    {"pairs": run_pairs, "scoping": run_scoping, "scoped_null": run_scoped_null, "wrapper": run_wrapper,
+    {"pairs": run_pairs, "scoping": run_scoping, "scoped_null": run_scoped_null, "length_scoping": run_length_scoping, "wrapper": run_wrapper,
      "fits": run_fits}[spec["part"]](spec, acc)
 
 
@@ -625,6 +667,8 @@ def replay(case):
             if case.get(key):
                 case[key] = {p: [(tuple(e), v) for e, v in blocks] for p, blocks in case[key].items()}
         projection_case(acc, case)
+    elif part == "length_scoping":
+        run_length_scoping({"model": case["model"], "tree": case["tree"]}, acc)
     elif part == "wrapper":
         wrapper_case(acc, case)
     elif part == "fit":
